@@ -229,3 +229,25 @@ def capture_solvers():
         fmatrix.scop, fmatrix.np = old_scop, old_np
         if lmfit is not None:
             lmfit.minimize = old_min
+
+
+def pressure_connected(fr):
+    """do the internal interfaces link all cells that have one into a single group?  (only then are the pressures determined: theorem
+    C04_connected_pressures_are_the_zero_sum_least_squares; otherwise the bordered pressure matrix is singular)"""
+    adj = {}
+    for be in fr.internal_big_edges:
+        if len(be.own_cells) == 2:
+            a_, b_ = be.own_cells
+            adj.setdefault(a_, set()).add(b_)
+            adj.setdefault(b_, set()).add(a_)
+    if not adj:
+        return False
+    start = next(iter(adj))
+    seen, stack = {start}, [start]
+    while stack:
+        u_ = stack.pop()
+        for w_ in adj[u_]:
+            if w_ not in seen:
+                seen.add(w_)
+                stack.append(w_)
+    return seen == set(adj)
